@@ -14,3 +14,7 @@ func vReach(id string)
 // (-1)^neg * man * 10^exp10, and it is finite. Decided by the executor in exact
 // integer arithmetic (see engine/gosym/fpspec.py); natively with math/big.
 func vAssertRounded(man uint64, exp10 int, neg bool, bits uint64, id string)
+
+// tier 4 (glue): see engine/gosym/glue.py
+func vAssertGlueValue(lit []byte, bits uint64, id string)
+func vGlueOverflows(lit []byte) bool
